@@ -13,6 +13,8 @@ def add_obligations(pack, tier):
     run_contracts(pack, [(Q.pflow_fg_update('C01'),), (Q.call_models('C01'),)] +
                   [(Q.delegation('C01', n, m),) for n, m in (('l_update_var', 'l_update_var'), ('l_update_eq', 'l_check_eq'),
                                                              ('s_update_var', 's_update_var'), ('f_update', 'f_update'), ('g_update', 'g_update'))])
+    # the answer depends on the data only, not on what the object has been through: every initialisation re-evaluates the constant services
+    run_contracts(pack, [(Q.model_init_head('C01'), None, Q.replay_rerun_after_alter)])
     # input data -> system base: the admittances of the balance equations are the per-unit values of the physical input data
     from contracts import fn_pu
     pack.assume('per-unit conversion of the input data (System.calc_pu_coeff, NumParam.set_pu_coeff) is part of C01 with the '
@@ -34,3 +36,10 @@ def add_obligations(pack, tier):
                                      'admittance matrix rebuilt from vin'})
         if bad:
             pack.violation(name, {'bounded': True, 'inputs': bad, 'native_cmd': 'contracts/bounded_pflow_balance.py'})
+    name = 'C01/andes/routines/pflow.py:PFlow.run/bounded:second-run-after-a-parameter-change-equals-a-fresh-run'
+    r = native_guard(pack, name, Q.replay_rerun_after_alter)
+    if r is not None:
+        pack.bounded.append({'function': 'PFlow.run; alter; PFlow.run (end to end)', 'changes': r.get('tried', 0), 'counted_as_proved': False,
+                             'kind': 'bounded native: ieee14.raw, Line x / tap / b, PV p0 / v0, PQ p0 changed between two runs on one object'})
+        if r.get('confirmed'):
+            pack.violation(name, {'bounded': True, 'inputs': r.get('inputs'), 'observed': r.get('observed'), 'native_cmd': r.get('native_cmd')})
